@@ -154,6 +154,32 @@ func TestC07(t *testing.T) {
 			}
 		}
 	}
+	// long vectors: the vector kernels (assembly for the float types) work in blocks and finish with a tail
+	for _, op := range []string{"Add", "Sub", "Mul", "Div"} {
+		for _, d := range []DT{dtF32, dtF64, dtInt32, dtInt8, dtUint64, dtC64} {
+			for _, mode := range []string{"safe", "unsafe", "reuse", "incr"} {
+				op, d, mode := op, d, mode
+				cell(t, "C07", "EW", "long/"+op+"/"+d.Name+"/"+mode, nCases(3, 40), func(rt *rapid.T) Case {
+					n := rapid.SampledFrom([]int{5, 7, 8, 9, 15, 16, 17, 31, 33, 63, 65, 100, 127, 129, 255, 257, 1000, 1027}).Draw(rt, "n")
+					shape := rapid.SampledFrom([][]int{{n}, {n}, {2, n}, {n, 1}}).Draw(rt, "shape")
+					form := rapid.SampledFrom([]string{"TT", "TS", "ST"}).Draw(rt, "form")
+					c := genArithCase(rt, "C07", op, d, form, rapid.SampledFrom([]string{"pkg", "method"}).Draw(rt, "via"), "safe", []string{"contig"})
+					lo, hi := valueRange(d)
+					c.A = genOpnd(rt, shape, "contig", lo, hi, 3, "la")
+					if c.B != nil {
+						b := genOpnd(rt, shape, "contig", lo, hi, 3, "lb")
+						c.B = &b
+					}
+					avoidF39(c)
+					c = withMode(rt, c, mode, d)
+					if c.Dst != nil {
+						c.Dst.L = Layout{Root: "rm"}
+					}
+					return c
+				})
+			}
+		}
+	}
 	// one-element tensors (shapes (1), (1,1), (1,1,1)): the kernels treat them specially
 	for _, op := range []string{"Add", "Sub", "Mul", "Div"} {
 		for _, d := range []DT{dtInt32, dtF64, dtUint8} {
